@@ -41,6 +41,8 @@ ASSUMPTIONS = ['wavefronts and planes share one pixel scale, wavefronts have a f
                'propagate_fft refusing a wavefront with fitted tilt (NotImplementedError) is implementation-defined: '
                'the documentation tables do not mention it; model parameter observed_fft_refuses_tilt, the oracle '
                'accepts either behaviour',
+               'tilts are small (<= 1/8 output sample per tilt plane) so that a propagated field never leaves the output '
+               'window completely (a wavefront without fields has no tilt bit)',
                'no fit_tilt on planes (tilt enters only through Tilt/DispersiveTilt/Grism planes and Wavefront(tilt=))']
 RULE = ('corpus first; every single step exhaustively (6 states x (5 plane types + every public class + 2 routines)); '
         'random programs of length <= 12 (quick) / <= 40 (thorough) over all plane types, all public plane classes and '
@@ -100,12 +102,12 @@ def generate(rng, tier):
     claimed = [o for o in all_ops if o[1] not in BROKEN]
     pairs = [(s, a, b) for s in states for a in claimed for b in claimed]
     if tier != 'thorough':
-        pairs = rng.sample(pairs, 150)
+        pairs = rng.sample(pairs, 300)
     for (w, t), a, b in pairs:
         yield {'op': 'program', 'start': w, 'tilted': t,
                'ops': [[k, n, rng.randrange(gen_ptype.n_variants(k, n))] for k, n in (a, b)]}
     # 3. random programs
-    n, maxlen = (5000, 40) if tier == 'thorough' else (300, 12)
+    n, maxlen = (5000, 40) if tier == 'thorough' else (1000, 12)
     for i in range(n):
         ln = rng.randint(2, maxlen) if rng.random() < 0.8 else rng.randint(2, 5)
         ops = [_rand_op(rng, ok) for _ in range(ln)]
